@@ -57,13 +57,17 @@ pub fn gen_cgr_case(rng: &mut Rng, tier: &str, prop: &str, k: usize) -> Case {
             tab_desc_pct: 0,
             utf8_id_pct: 0,
             dup_id_pct: 0,
+            mega_1_in: 0,
+            twin_mega_1_in: 0,
     };
     let mut records = g.gen(rng);
     if k >= 6 {
         records.truncate(if thorough { 30 } else { 6 });
     }
     let mut bad = -1i64;
-    if k == 0 && rng.chance(1, 5) {
+    // (a fault is worth most inside a workload that keeps many things in flight: one time
+    // in two when there are a thousand records or more)
+    if k == 0 && (rng.chance(1, 5) || (records.len() >= 1000 && rng.chance(3, 8))) {
         // rejection clause: one foreign byte in one record
         let candidates: Vec<usize> = (0..records.len()).filter(|&i| !records[i].seq.is_empty()).collect();
         if !candidates.is_empty() {
